@@ -62,6 +62,13 @@ def gen_assign(rng):
 
             ops.append({'op': 'set', 'tree': tn, 'path': path, 'attr': attr,
                         'value': v})
+        elif k < 15 and rng.chance(0.5):
+            path = rng.choice([[], [0], [0, 0]])
+            ops.append({'op': 'set', 'tree': tn, 'path': path, 'attr': 'meta',
+                        'value': {'n': 1, 'flag': True, 'f': 2.0,
+                                  'l': [0, 1, False]}})
+            ops.append({'op': 'tweak', 'tree': tn, 'path': path,
+                        'attr': 'meta', 'how': 'retype'})
         elif k < 16:
             bad = rng.choice(domgen.NON_ATTRS)
             attrs = {bad: rng.choice([1, 'x', None, [], {}])}
@@ -122,7 +129,8 @@ def gen_equality(rng):
             # minimal perturbation of an existing content value
             attr = rng.choice(['preamble', 'meta'] if kind != 'file'
                               else ['diff', 'meta'])
-            how = 'reverse_keys' if attr == 'meta' else rng.choice(
+            how = rng.choice(['reverse_keys', 'retype']) \
+                if attr == 'meta' else rng.choice(
                 ['append_nl', 'append_crlf', 'strip_nl', 'append_space',
                  'swapcase', 'prepend_bom'])
             ops.append({'op': 'tweak', 'tree': 'T2', 'path': path,
@@ -131,6 +139,15 @@ def gen_equality(rng):
             ops.append({'op': 'meta_set', 'tree': 'T2', 'path': path,
                         'key': rng.choice(['k', 'zz']),
                         'value': gen.gen_json_value(rng, 1)})
+        elif k < 7 and rng.chance(0.5):
+            # drop an option that has a class-level default (or any option)
+            sec, key = rng.choice([('self', 'encoding'), ('self', 'version'),
+                                   ('meta', 'format'), ('meta', 'encoding'),
+                                   ('preamble', 'indent'),
+                                   ('diff', 'line_endings')])
+            ops.append({'op': 'del_option', 'tree': 'T2',
+                        'path': path if sec != 'self' or key == 'encoding'
+                        else [], 'sec': sec, 'key': key})
         elif k < 8:
             sec = rng.choice(['self', 'preamble', 'meta', 'diff'])
             ops.append({'op': 'set_option', 'tree': 'T2', 'path': path,
@@ -236,6 +253,11 @@ def execute(scn, L):
                     kind, 'unknown' if unknown else 'invalid'))
         elif name == 'tweak' and r['outcome'] == 'ok':
             out.probe('tweak:' + str(op.get('how')))
+
+            if r.get('same') is False:
+                out.violate('C19.stored-value-differs', 'tweak:%s:%s' % (
+                    op.get('attr'), op.get('how')),
+                    {'op': op, 'stored': r.get('stored')})
         elif name in ('eq', 'ne') and r['outcome'] == 'ok':
             se = r.get('snap_equal')
             want = se if name == 'eq' else (not se)
@@ -246,7 +268,11 @@ def execute(scn, L):
                     {'op': op, 'returned': r.get('value')})
 
             if se and r.get('bytes_equal') is False:
-                out.violate('C19.equal-trees-serialise-differently', 'bytes',
+                # narrow signature of the recorded finding: the trees differ
+                # only in bool / int / float typing of metadata values
+                out.violate('C19.equal-trees-serialise-differently',
+                            'bytes' if r.get('strict_equal')
+                            else 'bytes:metadata-number-typing-only',
                             {'op': op})
 
             if not se:
